@@ -68,7 +68,7 @@ def gen(rng, tier, index):
         "min_length": rng.choice([0, 0, 8]),
         "writer": writer,
         "out_mode": rng.choice(["w", "w", "a"]),
-        "input_form": rng.choice(["dstore", "paths", "dstore"]),
+        "input_form": rng.choice(["dstore", "paths", "dstore", "objects"]),
         "logger": rng.random() < 0.3,
         "parallel": parallel,
         "max_workers": rng.choice([None, 1, 2, 3, 4, 40]),
@@ -79,6 +79,13 @@ def gen(rng, tier, index):
         "dir_order": rng.choice(["sorted", "reverse", "s%d" % rng.randint(0, 9)]),
         "mode": "apply_to" if rng.random() < 0.8 else "as_completed",
     }
+    if plan["input_form"] == "objects":
+        # in-memory collections (carrying .info.source) fed to steps + writer
+        for i in plan["inputs"]:
+            if i["kind"] in ("malformed", "empty"):
+                i["kind"] = "good"
+        if not plan["steps"] and not plan["min_length"]:
+            plan["steps"] = [{"tag": "_1", "outcomes": {}}]
     return plan
 
 
@@ -105,14 +112,17 @@ def build_app(plan, data_store=None, with_writer=True):
 
     import verif_apps as va
 
-    app = io_app.load_unaligned(format="fasta", moltype="dna")
-    names = ["load_unaligned"]
+    objects = plan["input_form"] == "objects"
+    app = None if objects else io_app.load_unaligned(format="fasta", moltype="dna")
+    names = [] if objects else ["load_unaligned"]
     if plan["min_length"]:
-        app = app + get_app("min_length", plan["min_length"])
+        nxt = get_app("min_length", plan["min_length"])
+        app = nxt if app is None else app + nxt
         names.append("min_length")
     for k, st in enumerate(plan["steps"]):
         cls = va.STEP_CLASSES[k % 3]
-        app = app + cls(st["tag"], dict(st["outcomes"]))
+        nxt = cls(st["tag"], dict(st["outcomes"]))
+        app = nxt if app is None else app + nxt
         names.append(cls.__name__)
     if with_writer:
         w = {"seqs": lambda: io_app.write_seqs(data_store, format="fasta"),
@@ -136,7 +146,7 @@ def predict(plan, inp, names):
     """(kind, type, origin) predicted from the plan alone"""
     if inp["kind"] in ("malformed", "empty"):
         return ("nc", "ERROR", "load_unaligned")
-    pos = 1
+    pos = 0 if plan["input_form"] == "objects" else 1
     if plan["min_length"]:
         if inp["kind"] == "short" or inp["len"] < plan["min_length"]:
             return ("nc", "FALSE", "min_length")
@@ -231,6 +241,9 @@ def run(plan, tier="quick") -> RunResult:
 
             # ---- reference: each input alone, fresh app, fresh store ----------
             expected = {}
+            from cogent3.app import io as _io
+
+            io_loader = _io.load_unaligned(format="fasta", moltype="dna")
             _, names = build_app(plan, None, with_writer=False)
             names_w = names + [{"seqs": "write_seqs", "json": "write_json", "db": "write_db"}[wr]]
             for inp in plan["inputs"]:
@@ -238,6 +251,8 @@ def run(plan, tier="quick") -> RunResult:
                 path = os.path.join(in_dir, f"{stem}.fasta")
                 fresh, _ = build_app(plan, None, with_writer=False)
                 arg = path
+                if plan["input_form"] == "objects":
+                    arg = io_loader(path)
                 if plan["input_form"] == "dstore":
                     # the same kind of object apply_to hands to the loader
                     ref_in = open_data_store(in_dir, suffix="fasta", mode="r")
@@ -281,6 +296,8 @@ def run(plan, tier="quick") -> RunResult:
             # ---- the run under test ---------------------------------------------
             if plan["input_form"] == "dstore":
                 inputs = open_data_store(in_dir, suffix="fasta", mode="r")
+            elif plan["input_form"] == "objects":
+                inputs = [io_loader(os.path.join(in_dir, f"{s}.fasta")) for s in stems]
             else:
                 inputs = [os.path.join(in_dir, f"{s}.fasta") for s in stems]
             par_kw = {"max_workers": plan["max_workers"]} if plan["max_workers"] is not None else None
@@ -413,7 +430,8 @@ def run(plan, tier="quick") -> RunResult:
         res.fault("schedule:skewed-durations" if max(plan["durations"]) >= 5 else "schedule:even-durations")
     outcome_pattern = []
     for inp in plan["inputs"]:
-        p = predict(plan, inp, ["load_unaligned"] + (["min_length"] if plan["min_length"] else []) +
+        p = predict(plan, inp, ([] if plan["input_form"] == "objects" else ["load_unaligned"]) +
+                    (["min_length"] if plan["min_length"] else []) +
                     ["planned", "planned2", "planned3"][: len(plan["steps"])] + ["writer"])
         outcome_pattern.append(f"{p[0][0]}{p[1] or ''}")
         res.probe(f"outcome:{p[1] or 'completed'}")
